@@ -193,7 +193,7 @@ def check_copy_family(rep, scr, tier, seed):
     if pid == 'C02': c02_query_extents(rep, scr, impls['O1'], md, consts['O1'], tier, seed)
     if pid in ('C01', 'C03', 'C04', 'C05', 'C06'):
         for v in variants: getenv_batch(rep, scr, impls[v], md, consts[v], pid, v, tier, seed)
-    if pid == 'C05': printf_report_batch(rep, scr, impls['O1'], consts['O1'], tier, seed); sort_report_batch(rep, scr, impls['O1'], consts['O1'], tier, seed)
+    if pid == 'C05': printf_report_batch(rep, scr, impls['O1'], consts['O1'], tier, seed); sort_report_batch(rep, scr, impls['O1'], consts['O1'], tier, seed); query_report_batch(rep, scr, impls['O1'], consts['O1'], tier, seed)
     if pid in ('C01', 'C02', 'C03', 'C04', 'C05', 'C06', 'C07', 'C08'):
         for v in variants: sweep_batch(rep, scr, impls[v], consts[v], pid, v, tier, seed, md)
     report_proofs(rep, pr, pid)
@@ -285,6 +285,54 @@ def sort_report_batch(rep, scr, impl, consts, tier, seed):
             kid = known.classify(rep, c, a, kind, 'O1', consts)
             if kid: rep.known_hits[kid] = rep.known_hits.get(kid, 0) + 1
             else: rep.violation('qsort_s: %s' % t, {'key': ('qsort_s', kind, 'sort-report'), 'property': 'C05', 'function': 'qsort_s', 'failure': kind, 'case': c.to_json(), 'case_line': c.line(), 'impl_outcome': a.raw, 'what': t})
+
+def query_report_batch(rep, scr, impl, consts, tier, seed):
+    """C05 for the read-only (query) entry points: valid calls of C10's generator with one argument made invalid at a time
+    (a pointer null, dmax zero, dmax above the limit): a failing call reports exactly once, with the code it returns, through the
+    handler of its family; a succeeding call never reports"""
+    base = c10_cases(seed, 'quick'); per = {}; cs = []; k = 0
+    for c in base:
+        if per.get(c.func, 0) >= 3: continue
+        per[c.func] = per.get(c.func, 0) + 1
+        muts = [('valid', list(c.args))]
+        for i, a in enumerate(c.args):
+            if isinstance(a, tuple): m2 = list(c.args); m2[i] = None; muts.append(('null%d' % i, m2))
+        if len(c.args) > 1 and isinstance(c.args[1], int):
+            lim = consts['rmax_mem'] if c.func.startswith(('mem', 'wmem', 'timingsafe')) else (consts['rmax_wstr'] if c.func.startswith('wcs') else consts['rmax_str'])
+            for tag, v in (('zero', 0), ('huge', lim + 1)):
+                m2 = list(c.args); m2[1] = v; muts.append((tag, m2))
+        if c.func in ('memchr_s', 'memrchr_s', 'strchr_s', 'strrchr_s') and len(c.args) > 2 and isinstance(c.args[2], int):
+            m2 = list(c.args); m2[2] = 300; muts.append(('chhuge', m2))       # the character argument above 255
+        for tag, args in muts:
+            k += 1; cs.append(vlib.Case('qr%d' % k, c.func, c.blocks, args, dict(cls='query-report', func=c.func, mut=tag)))
+    cf = '%s/cases_c05q.txt' % scr.dir
+    with open(cf, 'w') as f:
+        for c in cs: f.write(c.line() + '\n')
+    oi = vlib.run_impl(impl, cf, cs)
+    for c in cs:
+        a = oi.get(c.id); m = c.meta
+        rep.evals += 1; rep.count('%s/query-report/%s' % (c.func, 'valid' if m['mut'] == 'valid' else 'invalid'))
+        if a is None or a.fault != '-' or a.ret in ('UNKNOWN', 'FAULT', 'CRASH'): continue
+        try: rc = int(a.ret.split(',')[0])
+        except ValueError: continue            # pointer-returning entry points are judged elsewhere
+        hs = [(kk, int(cc)) for kk, cc in a.handlers]
+        rep.nontrivial.add((c.func, 'query-report', m['mut'], rc, len(hs)))
+        want_kind = 'M' if c.func.startswith(('mem', 'wmem', 'timingsafe')) else 'S'
+        fails = []
+        noterrno = c.func.startswith('stris') or c.func in ('wcsnlen_s', 'strnlen_s')      # answer a bool / a length: 0 also means "violation"
+        if m['mut'] == 'valid' and hs and rc == 0 and not noterrno: fails.append(('handler-on-success', 'returned 0 but handler invocations were %s' % hs))
+        if noterrno:
+            if m['mut'] != 'valid' and len(hs) > 1: fails.append(('handler-count', '%s: the handler was invoked %d times %s' % (m['mut'], len(hs), hs)))
+            if m['mut'] != 'valid' and len(hs) == 1 and hs[0][0] != want_kind: fails.append(('handler-kind', '%s: a string function reported through the %s handler' % (m['mut'], hs[0][0])))
+        elif m['mut'] != 'valid':
+            if rc == 0 and hs: fails.append(('handler-on-success', 'returned 0 but handler invocations were %s' % hs))
+            if rc != 0 and rc not in (408, 409) and len(hs) != 1: fails.append(('handler-count', '%s: returned %d but the handler was invoked %d times %s' % (m['mut'], rc, len(hs), hs)))
+            elif rc != 0 and len(hs) == 1 and hs[0][1] != abs(rc): fails.append(('handler-code', '%s: returned %d but the handler received %d' % (m['mut'], rc, hs[0][1])))
+            elif rc != 0 and len(hs) == 1 and hs[0][0] != want_kind: fails.append(('handler-kind', '%s: a %s function reported through the %s handler' % (m['mut'], 'memory' if want_kind == 'M' else 'string', hs[0][0])))
+        for kind, t in fails:
+            kid = known.classify(rep, c, a, kind, 'O1', consts)
+            if kid: rep.known_hits[kid] = rep.known_hits.get(kid, 0) + 1
+            else: rep.violation('%s: %s' % (c.func, t), {'key': (c.func, kind, 'query-report'), 'property': 'C05', 'function': c.func, 'failure': kind, 'case': c.to_json(), 'case_line': c.line(), 'impl_outcome': a.raw, 'what': t})
 
 def getenv_batch(rep, scr, impl, md, consts, pid, var, tier, seed):
     """getenv_s: value lengths around dmax, unset variable, null arguments; model (libc getenv as an oracle) and reference"""
